@@ -33,8 +33,12 @@ type solveOut struct {
 }
 
 func runSolver(sp solverSpec, file string, secs int) solveOut {
+	return runSolverCtx(context.Background(), sp, file, secs)
+}
+
+func runSolverCtx(parent context.Context, sp solverSpec, file string, secs int) solveOut {
 	args := sp.args(file, secs)
-	ctx, cancel := context.WithTimeout(context.Background(), time.Duration(secs+3)*time.Second)
+	ctx, cancel := context.WithTimeout(parent, time.Duration(secs+3)*time.Second)
 	defer cancel()
 	cmd := exec.CommandContext(ctx, args[0], args[1:]...)
 	var out bytes.Buffer
@@ -61,22 +65,31 @@ func runSolver(sp solverSpec, file string, secs int) solveOut {
 	return solveOut{result: res, solver: sp.name, ms: ms, output: text}
 }
 
-// solveScript tries the solvers in turn until one gives a definite answer.
+// solveScript: with one solver in "order" it just runs it; with several it races them (first
+// definite answer wins, the others are killed).
 func solveScript(file string, secs int, order []int, crossCheck bool) solveOut {
-	var last solveOut
-	var total int64
+	if len(order) == 1 {
+		return runSolver(solvers[order[0]], file, secs)
+	}
+	ctx, cancel := context.WithCancel(context.Background())
+	defer cancel()
+	ch := make(chan solveOut, len(order))
 	for _, i := range order {
-		o := runSolver(solvers[i], file, secs)
-		total += o.ms
+		go func(i int) { ch <- runSolverCtx(ctx, solvers[i], file, secs) }(i)
+	}
+	var last solveOut
+	t0 := time.Now()
+	for range order {
+		o := <-ch
 		if o.result == "unsat" || o.result == "sat" {
-			o.ms = total
+			o.ms = time.Since(t0).Milliseconds()
 			return o
 		}
 		if last.result == "" || last.result == "error" {
 			last = o
 		}
 	}
-	last.ms = total
+	last.ms = time.Since(t0).Milliseconds()
 	return last
 }
 
@@ -107,9 +120,18 @@ func solveAll(w *World, obls []*Obligation, secs int, depth int, seed int, workD
 				}
 			}()
 			bodies[i] = o.buildBody(w, depth, -1)
+			// cap the script size: unfold recursive specifications less deeply when the text explodes
+			for d := depth - 1; d >= 0 && len(bodies[i]) > 1500000; d-- {
+				bodies[i] = o.buildBody(w, d, -1)
+				o.UnfoldDepth = d
+			}
 			if !o.MustFail && strings.Contains(bodies[i], "(forall ") {
 				qfOnly = true
-				qfBodies[i] = o.buildBody(w, depth, -1)
+				dd := depth
+				if o.UnfoldDepth >= 0 {
+					dd = o.UnfoldDepth
+				}
+				qfBodies[i] = o.buildBody(w, dd, -1)
 				qfOnly = false
 			}
 			for j := range o.Hyps {
@@ -169,7 +191,14 @@ func solveAll(w *World, obls []*Obligation, secs int, depth int, seed int, workD
 			if o.MustFail {
 				ord = order[:1]
 			}
-			r := solveScript(file, first, ord, false)
+			// most obligations are decided by the first solver in a moment; race all of them only for
+			// the ones it does not decide quickly
+			r := solveScript(file, 3, order[:1], false)
+			if r.result != "unsat" && r.result != "sat" && !o.MustFail {
+				r2 := solveScript(file, first, ord, false)
+				r2.ms += r.ms
+				r = r2
+			}
 			o.Result, o.Solver, o.Ms, o.Model = r.result, r.solver, r.ms, r.output
 			if r.result != "unsat" && r.result != "sat" && len(o.Splits) > 0 {
 				solveSplit(w, o, prelude, depth, secs, order, workDir, i)
